@@ -668,3 +668,66 @@ def run_p16(chk, repo):
                                           'record removes values of the second')
     if n == 0:
         raise AnalysisError('P16: flush block of update_random_variable_records not recognised')
+
+
+def run_p17_p18(chk, repo):
+    """P17: the parentheses of a theta are removed only when it is not a repeat (value)xN; P18: whether a value of a record
+    changed is decided by exact comparison of the written number with the new one (never with a tolerance)"""
+    from sa.cfg import CFG
+    from sa import guards as G_
+    P17 = chk.rule('P17', 'ThetaRecord.update: remove_parentheses only under a test that the repeat count is 1 '
+                          '((init)xN needs its parentheses)', floor=1)
+    tm = repo.module('pharmpy.model.external.nonmem.records.theta_record')
+    cls = tm.classes.get('ThetaRecord')
+    n17 = 0
+    for f in ([cls.methods.get('update')] if cls and cls.methods.get('update') else []) + \
+            [m_ for nm, m_ in (cls.methods.items() if cls else []) if nm.startswith('_update')] + \
+            [g for g in tm.functions.values() if g.parent is not None and g.parent.name == 'update']:
+        mult = {a.targets[0].id for a in ast.walk(f.node) if isinstance(a, ast.Assign) and isinstance(a.targets[0], ast.Name)
+                and ('_multiple' in unparse(a.value) or "subtree('n')" in unparse(a.value))}
+        calls = [c for c in calls_in(f.node) if dotted(c.func) == 'remove_parentheses']
+        if not calls:
+            continue
+        cfg = CFG(f.node)
+
+        def single(e, mult=mult):
+            if isinstance(e, ast.Compare) and len(e.ops) == 1 and isinstance(e.ops[0], (ast.Eq, ast.NotEq)) \
+                    and isinstance(e.left, ast.Name) and e.left.id in mult and isinstance(e.comparators[0], ast.Constant) \
+                    and e.comparators[0].value == 1:
+                return isinstance(e.ops[0], ast.Eq)
+            return None
+        for c in calls:
+            n17 += 1
+            from sa import reach as _reach
+            at = _reach.node_containing(cfg, c)
+            ok = at is not None and bool(G_.guarded(cfg, at, single))
+            chk.instance(P17, f'{f.qualname}: `{unparse(c)[:50]}` only when the repeat count is 1: {ok}')
+            if not ok:
+                chk.violation(P17, tm.rel, f.qualname, unparse(c)[:80],
+                              'a repeat (low,init)xN whose bounds are removed is written as initxN, which is read as one theta '
+                              'followed by an option', line=c.lineno,
+                              witness='$THETA (0,1)x2, remove the lower bounds: the record becomes 1x2 and re-reads as one theta')
+    if n17 == 0:
+        raise AnalysisError('P17: remove_parentheses is not called from ThetaRecord.update')
+    P18 = chk.rule('P18', 'record writers: "did the written value change?" is an exact comparison of eval_token(..) with the new '
+                          'value', floor=3)
+    n18 = 0
+    for modname in ('pharmpy.model.external.nonmem.records.theta_record', 'pharmpy.model.external.nonmem.records.omega_record'):
+        m = repo.module(modname)
+        for f in m.functions.values():
+            for c in ast.walk(f.node):
+                if isinstance(c, ast.Compare) and any(isinstance(x, ast.Call) and dotted(x.func) == 'eval_token' for x in ast.walk(c)) \
+                        and isinstance(c.ops[0], (ast.Eq, ast.NotEq)):
+                    n18 += 1
+                    chk.instance(P18, f'{f.qualname}: `{unparse(c)[:60]}` exact')
+                if isinstance(c, ast.Call) and (dotted(c.func) or '').split('.')[-1] in ('isclose', 'allclose', 'approx') \
+                        and any(isinstance(x, ast.Call) and dotted(x.func) == 'eval_token' for x in ast.walk(c)):
+                    n18 += 1
+                    chk.instance(P18, f'{f.qualname}: `{unparse(c)[:60]}` tolerance')
+                    chk.violation(P18, m.rel, f.qualname, unparse(c)[:90],
+                                  'an edit smaller than the tolerance is not written back: the regenerated record keeps the old '
+                                  'number although the model holds the new one', line=c.lineno,
+                                  witness='set_initial_estimates with 0.2 -> 0.200001 (or 1E-9 -> 5E-9) on a BLOCK record: the text '
+                                          'is unchanged and re-reads as the old value')
+    if n18 == 0:
+        raise AnalysisError('P18: no comparison of eval_token(..) found in the record writers')
